@@ -1,7 +1,7 @@
 (* Composition of the render lemmas into statements about _htmldiff's pipeline
    (prepare -> opcodes -> assemble), for every pair of trees, every URL rule set and every cap. *)
 From Coq Require Import List NArith Arith Bool String Lia.
-From WMD Require Import Gen.Tables Lib.Str Lib.PyChars Lib.Escape Lib.Difflib Model.RenderTokens Model.RenderMerge
+From WMD Require Import Gen.Tables Lib.Str Lib.PyChars Lib.Escape Lib.Difflib Model.RenderTokens Model.RenderMerge Model.RenderLabelled
      Proofs.DifflibProofs Proofs.MergeProofs Proofs.TokenProofs Proofs.AssembleProofs.
 Import ListNotations.
 Open Scope N_scope.
